@@ -11,7 +11,8 @@ W=$(mktemp -d /tmp/vseed.XXXXXX)
 git -C /repo worktree add -q --detach $W HEAD || { echo "BROKEN worktree"; exit 2; }
 trap 'git -C /repo worktree remove --force $W >/dev/null 2>&1; rm -rf $W' EXIT
 cd $W
-git apply $SD/patch.diff || { echo "PATCH does-not-apply"; exit 2; }
+git apply $SD/patch.diff 2>/dev/null || git apply --3way $SD/patch.diff 2>/dev/null || patch -p1 -s --fuzz=3 < $SD/patch.diff || { echo "PATCH does-not-apply"; exit 2; }
+git diff HEAD > $W/.seed.patch   # the change as it applies to the current tree
 echo "PATCH applies ($(git diff --stat | tail -1 | sed 's/^ *//'))"
 go build ./... >/dev/null 2>&1 && echo "BUILD ok" || { echo "BUILD fails"; exit 2; }
 if go test -vet=off -count=1 ./... >/tmp/vseed.suite.$$ 2>&1; then echo "SUITE passes-with-change"; else echo "SUITE FAILS-with-change"; grep -E "^(FAIL|---)" /tmp/vseed.suite.$$ | head -5; fi
@@ -24,20 +25,17 @@ if [ -d $SD/demo ]; then
 fi
 with=0; without=0
 for p in $DEMOPKGS; do
-  if echo "$p" | grep -q "_test\|/lambda\|/cmd\|^\./cmd\|^\./lambda"; then :; fi
-  if ls $W/$p/*_test.go >/dev/null 2>&1 && ! ls $W/$p/main.go 2>/dev/null | grep -q seed; then
-    go test -vet=off -count=1 $p >/dev/null 2>&1 || with=1
-  fi
+  go test -vet=off -count=1 $p >/dev/null 2>&1 || with=1
 done
 [ $with -eq 1 ] && echo "DEMO fails-with-change" || echo "DEMO DOES-NOT-FAIL-with-change"
-git apply -R $SD/patch.diff
+git apply -R $W/.seed.patch
 for p in $DEMOPKGS; do
   go test -vet=off -count=1 $p >/dev/null 2>&1 || without=1
 done
 [ $without -eq 0 ] && echo "DEMO passes-without-change" || echo "DEMO FAILS-without-change"
 # back to the changed tree, without the demonstration files
-git checkout -q -- . ; git clean -fdq
-git apply $SD/patch.diff
+cp $W/.seed.patch /tmp/vseed.patch.$$; git checkout -q -- . ; git clean -fdq
+git apply /tmp/vseed.patch.$$; cp /tmp/vseed.patch.$$ $V/out/last-seed.patch; rm -f /tmp/vseed.patch.$$
 for prop in "$@"; do
   OUT=$(VERIF_REPO=$W $V/check $prop --tier quick 2>&1); RC=$?
   if [ $RC -eq 0 ]; then OUT=$(VERIF_REPO=$W $V/check $prop --tier thorough 2>&1); RC=$?; T=thorough; else T=quick; fi
